@@ -97,13 +97,13 @@ CLAIMED = {
         ref="DESIGN.md §4 C13",
     ),
     "C02": dict(
-        text="Lean theorems about a names-level model of assign_termini / set_termini (hidden-chain loop included) and the specification formalCharge: a cyclic chain gets no termini; only flags and patch lists change; "
+        text="Lean theorems about a names-level model of assign_termini / set_termini (hidden-chain loop included) and the specification formalCharge: a cyclic chain gets no termini - also when waters / hetero groups of the same chain follow the peptide (cyclic_through_trailing: the ring closes on the last amino residue, looked through exactly as for the C-terminus; repaired in /repo df57431); only flags and patch lists change; "
         "in every peptide chain exactly the first residue gets one N-terminus patch and exactly the last one C-terminus patch with everything in between untouched; trailing waters/hetero groups are looked through; "
         "with no hidden chain end set_termini is chain-wise (chain ids, numbering, order irrelevant); a neutral N-terminus shifts the formal charge by exactly -1; formal charges lie in [-2,2]; "
         "charge_table (kernel, regenerated data): for each of the six force fields and every amino-acid state x chain position it parameterises completely, the exact integer sum of the state's charges is the formal charge its name stands for; structure_total_integral: hence for EVERY sequence of such states (any length, composition, order) the exact total is the sum of the formal charges, and integral_total_passes_guard: such a total passes the total-charge guard for every tolerance. "
         "NUCLEIC ACIDS (Model/NucCharge.lean): nucleotide_table (kernel, regenerated NA.xml / PATCHES.xml / final force-field maps; the atoms of a nucleotide are its run-time reference = base definition + 5TERM / 3TERM through the same applyPatch as C03's stage model): in every force field, for DNA and for RNA, each parameterised middle nucleotide sums exactly to -1 e and each 5' end with each 3' end to -1 e; strand_minus_one_per_phosphate: hence EVERY strand with free ends (any length >= 2, any base sequence) of one sugar kind carries exactly -1 e per phosphate; five_end_has_no_phosphate; nucleotide_runtime_is_named_definition (24 cells: the run-time reference has the atoms of the load-time definition under the look-up name - false before the DT5 repair); nucleotide_table_coverage (DNA/RNA cells per force field - this count exposed the DT5 defect repaired in /repo 2d5aba7); chimeric_strand_refuted (DNA 5' end + RNA 3' end: -0.9998 e, known finding). "
         "Ties: the real set_termini on generated chain layouts (blank chains, internal OXT, trailing hetero residues, the cyclic test peptide, neutral flags) vs the model, flags and patch lists of every residue; "
-        "end to end residue.charge of every fully parameterised residue vs formalCharge evaluated by the driver, total = sum, PQR charge column = total; synthesised DNA / RNA strands (every base at 5', middle, 3' x every force field that defines them; full and one-letter residue names; with waters / a peptide chain): atoms of every nucleotide = the model's run-time reference, look-up name, strand total = -(residues - 1), waters neutral; peptide segments whose ends the FILE delimits (TER / chain id, blank or lettered ids, with/without trailing TER and OXT): first residue +1, last -1 on top of the side chain.",
+        "end to end residue.charge of every fully parameterised residue vs formalCharge evaluated by the driver, total = sum, PQR charge column = total; synthesised DNA / RNA strands (every base at 5', middle, 3' x every force field that defines them; full and one-letter residue names; with waters / a peptide chain): atoms of every nucleotide = the model's run-time reference, look-up name, strand total = -(residues - 1), waters neutral; the test suite's head-to-tail cyclic peptide with waters after it (same / other chain, HETATM / ATOM records, TER, --drop-water): no termini; peptide segments whose ends the FILE delimits (TER / chain id, blank or lettered ids, with/without trailing TER and OXT): first residue +1, last -1 on top of the side chain.",
         note="the cyclic test enters the model as an oracle bit logged from the real call; charge table: kernel-checked for amino-acid states over the regenerated topology and the regenerated final force-field maps (516 fully parameterised cells; N-terminal proline excluded - checked on runs; PARSE neutral C-terminal proline refuted: known finding under C12); that a residue's final atoms are those of the definition it is named after is C03's stages_reach_named_definition (up to add_hydrogens), chained with this table by reading, not by a third theorem; nucleotides: separate kernel table per strand (no deposited nucleic-acid structure offline: strands synthesised from NA.xml templates, residues 12 A apart)",
         ref="DESIGN.md §4 C02",
     ),
